@@ -188,6 +188,13 @@ def gen_case(rng, abi=False):
             cdef='typedef struct par%d_s { int pa; long pb; } par%d_t; typedef unsigned short par%d_u16; '
                  'enum par%d_e { PAR%d_A, PAR%d_B = 5 };' % (k, k, k, k, k, k),
             name=modname.replace('.', '_') + '_base')
+        # sometimes further, independent parents (the order of include() calls is part of the input)
+        more = []
+        for m in range(r2.weighted([(0, 5), (1, 2), (2, 2), (4, 1)])):
+            more.append(dict(cdef='typedef struct xp%d_%d_s { char c%d; } xp%d_%d_t;' % (k, m, m, k, m),
+                             name='%s_x%d_%s' % (modname.replace('.', '_'), m, r2.choice(['a', 'zz', 'lib', 'q9']))))
+        if more:
+            case['more_parents'] = more
         late = []
         for i in range(r2.randint(0, 3)):
             late.append(r2.choice(['par%d_t *use_par%d_%d(par%d_u16, enum par%d_e);' % (k, k, i, k, k),
@@ -219,6 +226,11 @@ def build_ffi(cffi_module, case, midway=None):
         par = cffi_module.FFI()
         par.cdef(case['parent']['cdef'])
         par.set_source(case['parent']['name'], None if case['source'] is None else '/* base */')
+        ffi.include(par)
+    for extra in case.get('more_parents', ()):
+        par = cffi_module.FFI()
+        par.cdef(extra['cdef'])
+        par.set_source(extra['name'], None if case['source'] is None else '/* base */')
         ffi.include(par)
     if case.get('late_cdef'):
         ffi.cdef(case['late_cdef'])
